@@ -20,7 +20,6 @@ func main() {
 	tier := flag.String("tier", "", "quick | thorough (default $VERIF_TIER or quick)")
 	repo := flag.String("repo", "/repo", "repository working tree")
 	mut := flag.String("mutants", "", "directory of mutant scripts (thorough tier self-test)")
-	_ = mut
 	verif := flag.String("verif", "/verif", "verification directory (evidence/, out/, known-findings.json)")
 	dump := flag.Bool("dump", false, "list units and exit")
 	noEvidence := flag.Bool("scratch", false, "scratch run (mutant self-test): write evidence/out under -verif as given")
@@ -85,7 +84,25 @@ func main() {
 			}()
 			rules.Registry[id](c, *tier)
 		}()
-		res := c.Finish(known, *verif, *tier, seed, t0, nil)
+		var extra map[string]any
+		if *tier == "thorough" && *mut != "" {
+			self, _ := os.Executable()
+			verifDirForMutants = *verif
+			mres := runMutants(self, *repo, *mut, id)
+			cnt := map[string]int{}
+			for _, r := range mres {
+				cnt[r.Status]++
+				fmt.Printf("selftest property=%s mutant=%s status=%s %s\n", id, r.ID, r.Status, r.Detail)
+			}
+			extra = map[string]any{
+				"checker_selftest": map[string]any{
+					"what":    "each seeded edit is applied to a scratch copy of the current tree (outside /repo and /verif, removed afterwards), must still compile, and the targeted rule must report it; benign edits must stay silent. Informational: never changes the verdict on /repo.",
+					"results": mres,
+					"counts":  cnt,
+				},
+			}
+		}
+		res := c.Finish(known, *verif, *tier, seed, t0, extra)
 		if res.Violations > 0 {
 			code = 1
 		} else if res.Undecided > 0 && code == 0 {
